@@ -1,6 +1,6 @@
 (* C16 non-vacuity: concrete inputs that meet the hypotheses of the theorems in
    Props.v and exercise the interesting branches (checked by vm_compute). *)
-From CJ Require Import Common.Base C16.Model C16.Concrete C16.ProofsRead C16.ProofsHb C16.ProofsFc C16.ModelMw C16.ProofsMw C16.ProofsReg C16.ProofsMat.
+From CJ Require Import Common.Base C16.Model C16.Concrete C16.ProofsRead C16.ProofsHb C16.ProofsFc C16.ModelMw C16.ProofsMw C16.ProofsMr C16.ProofsReg C16.ProofsMat.
 From Coq Require Import Lia.
 
 (* ---- (i) a script with partial reads, the bypass, an empty message and an error carrying data ---- *)
@@ -140,6 +140,15 @@ Example ex_unl_lost_wakeup :
     [MStart 2 131072; MCheck 2; MLockOp 2; MDo 2; MUnlock 2; MRet 2; MStart 2 131072; MCheck 2; MLockOp 2; MDo 2; MUnlock 2; MRet 2;
      MStart 0 1; MStart 1 1; MCheck 0; MCheck 1; MDrain 262144; MTake 0; MTake 1] in
   mpcs st 1%nat = MSel 1 /\ mtoken st = false /\ mbuf st = 0.
+Proof. vm_compute. auto. Qed.
+
+(* ---- (vii) two goroutines reading: a five-byte message handed out piecewise to both, refill and hand-out of
+   reader 0 separated by reader 1's attempt to take the mutex ---- *)
+Example ex_mr_two_readers :
+  let st := mr_run 8 E_EOS (mr_init [([1;2;3;4;5], Some 30)])
+              [QStart 0 2; QStart 1 4; QLockOp 0; QFill 0; QLockOp 1; QCopy 0; QLockOp 1; QUnlock 0; QLockOp 1;
+               QFill 1; QCopy 1; QUnlock 1] in
+  mr_log st = [(2%nat, ([1;2], None)); (4%nat, ([3;4;5], Some 30))] /\ mr_lock st = None.
 Proof. vm_compute. auto. Qed.
 
 (* ---- (iv) two acceptors with one secret, one with another; three connections ---- *)
